@@ -525,6 +525,11 @@ pub fn run_c14(cfg: &BatchCfg, corpus_size: usize, pristine_sample: usize) -> i3
         }
         return fail(&lines, if violations > 0 { 1 } else { 2 });
     }
+    if let Some(i) = expected.iter().position(|e| e.starts_with(PURITY_MARK)) {
+        let detail = format!("call {} alone in a pristine process: {}", serde_json::to_string(&calls[i]).unwrap_or_default(), expected[i]);
+        let ok = report_violation(&mut lines, cfg.seed, 600_000 + i as u64, &single_call_case(&calls[i], &expected[i]), "H8-method-purity", &detail);
+        return fail(&lines, if ok { 1 } else { 2 });
+    }
     if let Some(i) = expected.iter().position(|e| e.starts_with(REENTRANT_MARK)) {
         let detail = format!(
             "call {}: a library call made from inside a caller-supplied interpreter callback (same thread, nested) panicked or gave a different result than the same call on its own",
